@@ -73,7 +73,7 @@ class TokenTypes(Enum):
             TokenTypes.GET, TokenTypes.IF, TokenTypes.OFF, TokenTypes.ON,
             TokenTypes.PRINT, TokenTypes.PRINTF, TokenTypes.PRINTLN,
             TokenTypes.PAUSE, TokenTypes.REGISTER, TokenTypes.REPEAT,
-            TokenTypes.SET, TokenTypes.STAGE, TokenTypes.UNITS,
+            TokenTypes.RETURN, TokenTypes.SET, TokenTypes.STAGE, TokenTypes.UNITS,
             TokenTypes.WHILE, TokenTypes.WAIT)
 
 class Token:
